@@ -13,6 +13,7 @@ import (
 	"strconv"
 	"strings"
 	"sync"
+	"syscall"
 	"time"
 
 	"github.com/gofrs/uuid"
@@ -309,6 +310,24 @@ func runC09(tier string, seed int64) *Outcome {
 		o.Inconclusive = append(o.Inconclusive, err.Error())
 		return o
 	}
+	// a temp directory on ANOTHER file system than the data directory: wherever the store creates its temporary file, a
+	// save must stay atomic (a rename across file systems is not possible; a copy is not atomic)
+	otherTmp := ""
+	if st, err := os.Stat(root); err == nil {
+		for _, cand := range []string{"/dev/shm", "/run", "/var/tmp", "/tmp"} {
+			if cs, err := os.Stat(cand); err == nil {
+				if a, ok1 := st.Sys().(*syscall.Stat_t); ok1 {
+					if b, ok2 := cs.Sys().(*syscall.Stat_t); ok2 && a.Dev != b.Dev {
+						if d, err := os.MkdirTemp(cand, "pxc09-tmp-"); err == nil {
+							otherTmp = d
+							defer os.RemoveAll(d)
+							break
+						}
+					}
+				}
+			}
+		}
+	}
 	var jobs []c09job
 	for _, sc := range []string{"openat", "write", "close", "renameat", "renameat2", "rename"} {
 		for k := 1; k <= counts[sc]; k++ {
@@ -350,6 +369,10 @@ func runC09(tier string, seed int64) *Outcome {
 				cmd = exec.Command(exe, args...)
 			}
 			cmd.Env = append(os.Environ(), "GOMAXPROCS=1")
+			if otherTmp != "" && idx%2 == 1 {
+				cmd.Env = append(cmd.Env, "TMPDIR="+otherTmp)
+				desc += " (TMPDIR on another file system)"
+			}
 			if jb.kind == "randkill" {
 				if err := cmd.Start(); err != nil {
 					res.Inconclusive = err.Error()
@@ -432,9 +455,14 @@ func runC09(tier string, seed int64) *Outcome {
 	}
 	wg.Wait()
 	// reader racing writer, in this process
-	rr := readerRace(root, seed, tier)
+	rr := readerRace(root, seed, tier, "")
 	rr.Idx = len(jobs)
 	o.Results = append(o.Results, rr)
+	if otherTmp != "" {
+		rr2 := readerRace(filepath.Join(root, "other-tmp"), seed+1, tier, otherTmp)
+		rr2.Idx = len(jobs) + 2
+		o.Results = append(o.Results, rr2)
+	}
 	// sequences of small edits on one store instance
 	sf := saveFidelity(root, seed, tier)
 	sf.Idx = len(jobs) + 1
@@ -451,8 +479,19 @@ func runC09(tier string, seed int64) *Outcome {
 
 // readerRace: one writer saving generations 1..N, 4 readers looping over raw reads and Load; every read must be one
 // complete generation and generations seen by one reader never go backwards
-func readerRace(root string, seed int64, tier string) *CaseResult {
+func readerRace(root string, seed int64, tier string, tmpdir string) *CaseResult {
 	res := &CaseResult{}
+	if tmpdir != "" {
+		old, had := os.LookupEnv("TMPDIR")
+		os.Setenv("TMPDIR", tmpdir)
+		defer func() {
+			if had {
+				os.Setenv("TMPDIR", old)
+			} else {
+				os.Unsetenv("TMPDIR")
+			}
+		}()
+	}
 	dir := filepath.Join(root, "race")
 	st, _ := store.NewJSONDataStore(dir)
 	n := 400
@@ -539,7 +578,7 @@ func readerRace(root string, seed int64, tier string) *CaseResult {
 	close(stop)
 	wg.Wait()
 	res.Evaluations = reads
-	res.Situations = []string{fmt.Sprintf("reader-race distinctGenerationsSeen>=%d", min(len(distinct), 50)/10*10)}
+	res.Situations = []string{fmt.Sprintf("reader-race distinctGenerationsSeen>=%d tmpdirOnOtherFileSystem=%v", min(len(distinct), 50)/10*10, tmpdir != "")}
 	res.Extra = map[string]int{"race_reads": reads, "race_generations_seen": len(distinct)}
 	if reads < 100 || len(distinct) < 5 {
 		res.Inconclusive = fmt.Sprintf("reader race observed too little: %d reads, %d generations", reads, len(distinct))
@@ -550,7 +589,7 @@ func readerRace(root string, seed int64, tier string) *CaseResult {
 func init() {
 	register(&Check{
 		ID: "C09", Level: "fault_enumeration",
-		Rule:        "victim process `pxcheck saver` performs 3 (thorough: 4) saves of self-describing snapshots (generation g has n_g jobs, each job names g and n_g; sizes 0..40 (300) jobs, payload strings of every JSON-escaping class) through the real JsonDataStore, with its saving goroutine locked to one OS thread; a dry run under strace counts the openat / write / close / rename* system calls of that thread and then EVERY k in 1..count is used as a crash point (strace inject=<sc>:signal=SIGKILL:when=k) and every k (write: every 3rd / 2nd) as an I/O fault point (ENOSPC / EMFILE / EIO), plus SIGKILLs at PRNG-chosen microsecond offsets; after each run a FRESH process loads the directory (JsonDataStore.Load and an independent encoding/json decode) and the visible generation must be the last acknowledged one or the next one, complete; a failed save must report an error and leave the previous snapshot; plus 1 writer vs 4 readers in-process (every read one complete generation, never going backwards); plus sequences of 60 saves on one store instance whose consecutive snapshots differ by one small edit (same encoded length: status, digit, swap of two jobs, rename; identical repeats; returns to an earlier content; add / drop a job; the empty snapshot; a new store instance on the same directory in the middle of the sequence) - after every acknowledged save a fresh store instance and an independent decoder must return exactly that snapshot. evaluations = injection runs + reader reads; a situation is (injection kind, system call, visible generation, temp files left, acknowledged generation, failed saves)",
+		Rule:        "victim process `pxcheck saver` performs 3 (thorough: 4) saves of self-describing snapshots (generation g has n_g jobs, each job names g and n_g; sizes 0..40 (300) jobs, payload strings of every JSON-escaping class) through the real JsonDataStore, with its saving goroutine locked to one OS thread; a dry run under strace counts the openat / write / close / rename* system calls of that thread and then EVERY k in 1..count is used as a crash point (strace inject=<sc>:signal=SIGKILL:when=k) and every k (write: every 3rd / 2nd) as an I/O fault point (ENOSPC / EMFILE / EIO), plus SIGKILLs at PRNG-chosen microsecond offsets; after each run a FRESH process loads the directory (JsonDataStore.Load and an independent encoding/json decode) and the visible generation must be the last acknowledged one or the next one, complete; a failed save must report an error and leave the previous snapshot; half of the victims and a second reader race run with TMPDIR on another file system than the data directory; plus 1 writer vs 4 readers in-process (every read one complete generation, never going backwards); plus sequences of 60 saves on one store instance whose consecutive snapshots differ by one small edit (same encoded length: status, digit, swap of two jobs, rename; identical repeats; returns to an earlier content; add / drop a job; the empty snapshot; a new store instance on the same directory in the middle of the sequence) - after every acknowledged save a fresh store instance and an independent decoder must return exactly that snapshot. evaluations = injection runs + reader reads; a situation is (injection kind, system call, visible generation, temp files left, acknowledged generation, failed saves)",
 		Assumptions: []string{"process death is modelled by SIGKILL at system call boundaries of the saving thread plus random instants; power loss (no fsync in the code) is outside the statement", "rename(2) atomicity of the kernel is trusted"},
 		Custom:      runC09,
 		MinDistinct: 12,
